@@ -3,7 +3,7 @@
 (* straddling the cut and every alignment; total lengths 0..300; icons of      *)
 (* every length; ill-formed UTF-8 at every position.  C13 (with C12's icon     *)
 (* rule).                                                                      *)
-EXTENDS Ctap, Gen
+EXTENDS Ctap, Gen, Dict
 
 CONSTANT Deep      \* BOOLEAN: the thorough tier sweeps every icon length and every position
 
@@ -30,7 +30,19 @@ LengthNames ==
     {AsciiPattern(3, n) : n \in (IF Deep THEN 0..300 ELSE {0, 1, 2, 62, 63, 64, 65, 66, 67, 68, 100, 128, 255, 256, 300})}
     \cup {RepChar(CharA(w), n) : w \in 2..4, n \in {1, 15, 16, 17, 21, 22, 31, 32, 33, 75}}
 
-Names == StraddleNames \cup LengthNames
+\* particular characters, not only widths: joiners, marks, selectors, white space, the characters
+\* the source itself names.  Each one as the LAST character that fits, as the first that does
+\* not, and across the cut (it ends at byte 62..64+width), followed by more text; and names that
+\* fill the field exactly, or overflow it, ending in white space
+SpecialChars ==
+    {EncodeScalar(cp) : cp \in {0, 9, 10, 32, 127, 160, 173, 769, 8203, 8204, 8205, 8206, 8207, 8232, 8288, 65039, 65279, 65533, 127995, 917631}}
+    \cup {w \in DictChars : IsUtf8(w)}
+SpecialNames ==
+    UNION {{AsciiPattern(1, pad) \o ch \o AsciiPattern(2, 8) : pad \in (62 - Len(ch))..64} : ch \in SpecialChars}
+    \cup UNION {{AsciiPattern(1, n - Len(ch)) \o ch : n \in {63, 64, 65, 66}} : ch \in {<<32>>, <<9>>, <<10>>, EncodeScalar(160), EncodeScalar(8205)}}
+    \cup {<<32>> \o AsciiPattern(1, n) : n \in {62, 63, 64}}
+
+Names == StraddleNames \cup LengthNames \cup SpecialNames
 
 TCase(tn, sv, tag) ==
     TypeDecCase(tn, HostEncTy(TypeByName(tn), sv, F), tag) @@ [sv |-> <<sv>>]
@@ -38,7 +50,7 @@ TCase(tn, sv, tag) ==
 NameCases ==
     {TCase("User", [UserMin EXCEPT !.name = <<n>>], "user.name") : n \in Names}
     \cup {TCase("User", [UserMin EXCEPT !.displayName = <<n>>], "user.displayName") : n \in StraddleThin \cup LengthNames}
-    \cup {TCase("Rp", [RpMin EXCEPT !.name = <<n>>], "rp.name") : n \in StraddleThin \cup LengthNames}
+    \cup {TCase("Rp", [RpMin EXCEPT !.name = <<n>>], "rp.name") : n \in StraddleThin \cup LengthNames \cup SpecialNames}
     \* inside complete requests
     \cup {SentCase(1, [McReqMin EXCEPT !.user = [UserMin EXCEPT !.name = <<n>>, !.displayName = <<n>>],
                                        !.rp = [RpMin EXCEPT !.name = <<n>>]], "mc.names", F) : n \in StraddleThin}
